@@ -4,7 +4,7 @@
 set -u
 export GOFLAGS=-mod=mod GOPROXY=off GOSUMDB=off GOTOOLCHAIN=local CGO_ENABLED=0
 P=$1; shift
-W=/tmp/mutrepo
+W=${MUTW:-/tmp/mutrepo}
 [ -d $W ] || git -C /repo worktree add -q --detach $W HEAD
 git -C $W checkout -q --detach $(git -C /repo rev-parse HEAD) && git -C $W checkout -q -- . && git -C $W clean -fdq
 git -C $W apply "$P" || { echo "PATCH DOES NOT APPLY"; exit 2; }
